@@ -32,7 +32,7 @@ ASSUMPTIONS = [
     "sums compared to 1e-12 relative (cells are doubles); assets whose unrealised cost is below 1e-12 (dust under RP2's 13-decimal resolution) are not judged",
 ]
 
-HIST = gen.GenCfg(min_steps=3, max_steps=12, max_exchanges=3, max_holders=2)
+HIST = gen.GenCfg(min_steps=3, max_steps=12, max_exchanges=3, max_holders=2, bulk_prob=0.06)
 FLAVOURS = ("mixed", "mixed", "mixed", "fully_sold", "income_only", "buy_only", "transfer_heavy")
 REL = Fraction(1, 10**12)
 
@@ -75,10 +75,15 @@ def evaluate(case: Dict[str, Any]) -> Outcome:
     out = Outcome()
     lang = c13.effective_lang(case)
     out.classes.add(f"{case['country']}/{lang}")
+    out.classes |= cli_common.volume_classes(case)
     folder = cli_common.work_dir("c15")
     try:
         result, reference, outdir, rows_model = c13.run_and_reference(case, folder)
         if result.rc != 0 or reference is None or not reference.get("ok"):
+            bucket = cli_common.aborted_in(result.text, "plugin/report/open_positions.py") if result.rc != 0 else None
+            if bucket:
+                out.fail("open_positions_generation_aborted", f"rp2_{case['country']} exited {result.rc} while writing the report: {bucket}")
+                return out
             out.skipped = "run_failed(C16)"
             return out
         to_d = model.parse_date(case.get("to"))
